@@ -91,6 +91,11 @@ Faults13 == {[s |-> "{{ zz }}", rt |-> TRUE, k |-> "undefined-identifier", dl |-
              [s |-> "{{ 1 / 0 }}", rt |-> TRUE, k |-> "division-by-zero", dl |-> 0],
              [s |-> "{{ 7 % 0 }}", rt |-> TRUE, k |-> "modulo-by-zero", dl |-> 0],
              [s |-> "{{ 1 ~ 2 }}", rt |-> FALSE, k |-> "illegal-character", dl |-> 0],
+             \* an illegal character where a directive expects a name: the statement parser steps over the token
+             [s |-> "@each(# in [1])x@end", rt |-> FALSE, k |-> "illegal-character", dl |-> 0],
+             [s |-> "@slot(#)", rt |-> FALSE, k |-> "illegal-character", dl |-> 0],
+             [s |-> "@insert(#, 1)", rt |-> FALSE, k |-> "illegal-character", dl |-> 0],
+             [s |-> "@each(\n#\n in [1])x@end", rt |-> FALSE, k |-> "illegal-character", dl |-> 1],
              [s |-> "{{ 1 + }}", rt |-> FALSE, k |-> "unexpected-token", dl |-> 0],
              [s |-> "{{ }}", rt |-> FALSE, k |-> "empty-braces", dl |-> 0],
              [s |-> "{{ x = }}", rt |-> FALSE, k |-> "unexpected-token", dl |-> 0],
